@@ -211,6 +211,17 @@ def fp_sort(ty):
 RNE = z3.RNE()
 
 
+def fp_op(op, bits=64):
+    """IEEE-754 binary operation (round to nearest even) as an uninterpreted function"""
+    srt = z3.Float64() if bits == 64 else z3.Float32()
+    return z3.Function("ieee_%s%d" % ({"+": "add", "-": "sub", "*": "mul", "/": "div"}[op], bits), srt, srt, srt)
+
+
+def i2d(bits=64):
+    """integer -> floating conversion as an uninterpreted function shared by subject and spec"""
+    return z3.Function("int_to_fp%d" % bits, z3.IntSort(), z3.Float64() if bits == 64 else z3.Float32())
+
+
 # ------------------------------------------------------------------------------- executor
 
 class CExec:
@@ -324,7 +335,12 @@ class CExec:
                     return CV(ty, v.t)
                 return CV(ty, z3.fpToFP(RNE, v.t, fp_sort(ty)))
             if v.ty.is_int():
-                return CV(ty, z3.fpToFP(RNE, z3.ToReal(v.t), fp_sort(ty)))
+                if z3.is_int_value(v.t):
+                    return CV(ty, z3.fpToFP(RNE, z3.ToReal(v.t), fp_sort(ty)))
+                # (double) of a symbolic integer: an uninterpreted function (same symbol on the spec side), because
+                # int -> real -> fp conversion of an unbounded integer defeats the FP solver; i2d is C's
+                # round-to-nearest conversion, exact for |v| <= 2**53 (binary64)
+                return CV(ty, i2d(ty.bits)(v.t))
         if ty.kind == "void":
             return v
         raise OutOfSubset("conversion %s -> %s" % (v.ty.name, ty.name))
@@ -413,8 +429,26 @@ class CExec:
         r = {"&": bx & by, "|": bx | by, "^": bx ^ by}[op]
         return z3.BV2Int(r, is_signed=ty.signed)
 
+    def nosan_shift(self):
+        """the enclosing function carries __attribute__((no_sanitize("shift"))): the source opts out of the C shift
+        rules on purpose and validates the result afterwards"""
+        for c in self.func.get("inner", []) or []:
+            if c.get("kind") == "NoSanitizeAttr":
+                return True
+        return False
+
     def shift(self, st, op, x, k, ty, node):
         w = ty.bits
+        if self.nosan_shift():
+            # target semantics instead of C's: the count is masked to the operand width, << wraps (two's complement),
+            # >> of a negative value is arithmetic (x86-64 / AArch64; stated assumption, no UB obligation)
+            self.assumptions.add("inside functions marked no_sanitize(\"shift\"): shift counts are masked to the operand width and "
+                                 "<< wraps in two's complement (x86-64 / AArch64 behaviour), as the source itself relies on")
+            km = k.t % w
+            p = S.pow2(km) if not z3.is_int_value(km) else z3.IntVal(1 << km.as_long())
+            if op == "<<":
+                return CV(ty, S.wrap(x.t * p, w, ty.signed))
+            return CV(ty, S.floordiv(x.t, p) if not z3.is_int_value(p) else x.t / p)
         self.oblige(st, "ub", "shift_count", z3.And(k.t >= 0, k.t < w), node)
         kk = k.t
         p = z3.IntVal(1 << kk.as_long()) if z3.is_int_value(kk) and 0 <= kk.as_long() < 200 else S.pow2(kk)
@@ -491,6 +525,10 @@ class CExec:
                         one = z3.FPVal(1.0, fp_sort(ty))
                         zero = z3.FPVal(0.0, fp_sort(ty))
                         return CV(ty, z3.If(bb, z3.fpMul(RNE, one, b.t), z3.fpMul(RNE, zero, b.t)))
+            if self.opt.get("fp_abstract"):
+                # IEEE operation as an uninterpreted function shared with the spec (fp_op): enough for obligations that
+                # only need "the same operation on the same operands", and it keeps the FP solver out of the query
+                return CV(ty, fp_op(op, ty.bits)(x.t, y.t))
             f = {"+": z3.fpAdd, "-": z3.fpSub, "*": z3.fpMul, "/": z3.fpDiv}[op]
             return CV(ty, f(RNE, x.t, y.t))
         if op in ("<", ">", "<=", ">=", "==", "!="):
@@ -1079,8 +1117,8 @@ class CExec:
         return None
 
     def try_merge(self, states):
-        if len(states) <= 1:
-            return states
+        if len(states) <= 1 or self.opt.get("merge") is False:
+            return states        # merge=False: one VC per path (smaller formulas, more of them)
         # states produced by forking share a path prefix; merge two at a time when they differ by one literal
         out = [states[0]]
         for s in states[1:]:
